@@ -23,7 +23,7 @@ EXPLANATION = (
     "callback receives the iterator's own key (+ record bytes), `_no_more_records = true` followed by a callback on every normal exit; "
     "R18.3 every send(generate_sequence_reset(N,true), destroy, custom) in retrans_callback/handle_resend_request has an explicit "
     "custom sequence number derived from the context (_begin/_last/BeginSeqNo), never from _next_send_seq, and the later store to "
-    "_next_send_seq is the announced N; R18.4 reject decision table over (begin>end, end≠0, begin=0). R18.6 both persisters seed the RetransmissionContext with session.get_next_send_seq(); R18.5 at the end of the records retrans_callback sends the closing gap fill and returns the session to continuous on every path. NOT decided: concrete stores.")
+    "_next_send_seq is the announced N; R18.4 reject decision table over (begin>end, end≠0, begin=0). R18.7 FilePersister::put appends at SEEK_END; R18.8 find_nearest_highest_seqnum is the inclusive search in both persisters (rules of C27/C26); R18.6 both persisters seed the RetransmissionContext with session.get_next_send_seq(); R18.5 at the end of the records retrans_callback sends the closing gap fill and returns the session to continuous on every path. NOT decided: concrete stores.")
 
 S = 'FIX8::Session::'
 SEND_SEQ = S + '_next_send_seq'
@@ -354,6 +354,18 @@ def run(ctx):
     ctx.check(bool(closing) and p2 is None, 'R18.5', S + 'retrans_callback#end.closing-gapfill', nm[0][1].loc,
               'end of records: a closing SequenceReset-GapFill is sent on every path', None, rcfg.describe_path(p2) if p2 else None)
     retrans_seed_rule(ctx, prog, 'R18.6')
+    # R18.7 / R18.8 the store the replay reads from: records are appended at the end of the data file (rule of C27), and the first record of a range is
+    # found by the inclusive nearest-highest search (rule of C26) in both persisters
+    from . import c26 as _c26, c27 as _c27
+    cand = [f for f in prog.fns('FIX8::FilePersister::put') if 'basic_string' in f.sig or 'f8String' in f.sig]
+    ctx.need(len(cand) == 1, 'FilePersister::put(seq, bytes) not found')
+    dw = [c for c in cand[0].calls() if c.callee_qp == 'write' and _c27._fd_is(c.args[0], '_fod')]
+    ctx.need(len(dw) == 1, 'FilePersister::put: data write not found')
+    _c27.append_rule(ctx, cand[0], dw[0], 'R18.7')
+    for cls in ('FIX8::MemoryPersister', 'FIX8::FilePersister'):
+        _c26.nearest_rule(ctx, prog, cls, 'R18.8')
+    ctx.floor('R18.7', 1)
+    ctx.floor('R18.8', 4)
     ctx.floor('R18.5', 2)
     ctx.floor('R18.1', 5)
     ctx.floor('R18.2', 20)
